@@ -327,7 +327,7 @@ type lifePeer struct {
 	sys       uint32
 	quit      chan struct{} // closed by the scenario to release a deliberately wedged peer
 	quitOnce  sync.Once
-	onFail    func()        // called once, BEFORE the failure takes effect on the wire
+	onFail    func() // called once, BEFORE the failure takes effect on the wire
 	onExit    func(why string)
 }
 
